@@ -151,7 +151,7 @@ func c06Flags(ep string, b []byte, t thrift.Type) string {
 	return strings.Join(fl, ",")
 }
 
-// JSON input classes: the text ends inside a number / literal token (xjsonend); the top-level value is not an object (xjsontop)
+// JSON input classes: the text ends inside a number / literal token (xjsonend) or inside a string (xjsonstr); the top-level value is not an object (xjsontop)
 func c06JFlags(b []byte) string {
 	var fl []string
 	end := false
@@ -168,6 +168,20 @@ func c06JFlags(b []byte) string {
 	}
 	if end {
 		fl = append(fl, "xjsonend")
+	}
+	// the text ends inside a string (quote parity, escapes honoured)
+	inStr := false
+	for k := 0; k < len(b); k++ {
+		if inStr && b[k] == '\\' {
+			k++
+			continue
+		}
+		if b[k] == '"' {
+			inStr = !inStr
+		}
+	}
+	if inStr {
+		fl = append(fl, "xjsonstr")
 	}
 	i := 0
 	for i < len(b) && (b[i] == ' ' || b[i] == '\t' || b[i] == '\n' || b[i] == '\r') {
